@@ -133,6 +133,25 @@ notes={
  'C16-P':'+ the member addressed after non-ASCII dot and bracket names',
  'C18-O':'+ integers padded with 22 leading zeros',
  'C19-O':'+ Configs copied from a base holding 0..5 functions, each copy registering one more: what was registered through a copy stays reachable through it',
+ 'C01-Q':'+ one C01 case in eight is also evaluated in accessor mode against SPEC (values behind the accessors, order, Set nil exactly for non-locations)',
+ 'C01-R':'+ (same: C01 in accessor mode)',
+ 'C02-Q':'+ every accepted path is also evaluated on two hard documents (every JSON type side by side, numbers beyond the float64 range, UseNumber)',
+ 'C02-R':'+ ... and on a document built in Go whose members hold several values of one uncomparable type ([]string, map[string]int)',
+ 'C03-R':'+ TestC03_Reduced: every reduced-grammar sentence that Parse accepts is evaluated on six documents (small, hard in both decodings, Go-built)',
+ 'C06-Q':'+ Configs also handed over as sub-slices of one list shared by the goroutines (list[k-1:k]..., and the empty prefix list[:0]... for "no Config")',
+ 'C06-R':'+ corpus paths with the bare current node as an existence test under && / || / ! on the shared arrays',
+ 'C07-Q':'+ a six-element array member and unions of touching slices written high part first, repeated and crossing subscripts',
+ 'C08-Q':'+ multi-name selectors whose entries are quoted names that read like syntax (\'*\', \'@\', \'$\', \'..\'); the "selector = concatenation of its single selectors" corollary now also on arrays for selectors without a wildcard entry',
+ 'C08-R':'+ the whole path also in accessor mode (values behind the accessors against the plain result)',
+ 'C09-R':'+ a sibling atom may be the existence test of an operand the comparison reads ("@.p && @.p == $.q")',
+ 'C10-Q':'+ regular expressions that are a literal anchored at both ends in C10 (^1$, ^a$, \\Aab\\z, ^10$)',
+ 'C10-R':'+ an operand whose nested filter reads a root member (@.v[?(@ > $.x)].g1())',
+ 'C11-Q':'+ the random subscripts followed by an aggregate function on an array of arrays, against SPEC',
+ 'C11-R':'+ subscripts alone as the operand of an existence test ($[?(@<subscripts>)]), with step 0 forced in a quarter of them',
+ 'C12-R':'+ Retrieve with two Configs in one call (accessor + plain, accessor + empty, plain + accessor): the first one counts',
+ 'C15-Q':'the error-text matcher accepted the bare entry name for entries of a multi-name selector, which for the empty name is the empty text: name entries never report by themselves, the tolerance was removed',
+ 'C16-Q':'+ the member addressed as a root member from inside a filter nested in an @-operand',
+ 'C19-R':'+ Configs kept in one slice: Parse(path, all[:1]...) / Retrieve(path, doc, all[:0]...) leave the other elements alone',
  'C20-G':'+ defined types over float64 / string / bool and json.RawMessage among the opaque values',
 }
 rows=[]
